@@ -45,6 +45,16 @@ JudgeProbe(r, p) ==
      \o (IF p.gst # SpanOf(nw) THEN <<"get_str_trim(node) is not first to last non-whitespace token", ToString(p.id), ToString(p.gst), ToString(SpanOf(nw))>> ELSE <<>>)
      \o (IF p.ul # firstLoc THEN <<"unwrap_locate! is not the first token", ToString(p.id)>> ELSE <<>>)
      \o (IF badUn # {} THEN <<"unwrap_node! is not the first node of the requested kinds", ToString(p.id), ToString(CHOOSE k \in badUn : TRUE)>> ELSE <<>>)
+     \* an iterator advanced p.adv times and then turned into the event view; an iterator over several start nodes
+     \* (p.adv = 0: the harness did not probe this)
+     \o (IF p.adv > 0 /\ p.advrest # (IF p.adv >= Len(sub) THEN <<>> ELSE SubSeq(sub, p.adv + 1, Len(sub)))
+           THEN <<"iteration continued after k steps is not the rest of the node's iteration", ToString(p.id)>> ELSE <<>>)
+     \o (IF p.adv > 0 /\ (EnterProj(p.advev) # p.advrest \/ ~Nested(p.advev, 1, <<>>))
+           THEN <<"event view of an advanced iterator: Enter sequence differs from the plain iteration (or events not nested)", ToString(p.id), ToString(p.adv)>> ELSE <<>>)
+     \o (IF p.adv > 0 /\ p.multiit # sub \o EnterProj(SubEvents(r.ev, p.other))
+           THEN <<"iteration over two start nodes is not the concatenation of their iterations", ToString(p.id), ToString(p.other)>> ELSE <<>>)
+     \o (IF p.adv > 0 /\ (EnterProj(p.multiev) # p.multiit \/ ~Nested(p.multiev, 1, <<>>))
+           THEN <<"event view over two start nodes: Enter sequence differs from the plain iteration (or events not nested)", ToString(p.id), ToString(p.other)>> ELSE <<>>)
      \o (IF r.tryloc[p.id] # tl THEN <<"Locate::try_from(node) is not the concatenation of its tokens", ToString(p.id), ToString(r.tryloc[p.id]), ToString(tl)>> ELSE <<>>)
 
 RECURSIVE JudgeProbes(_, _)
